@@ -40,6 +40,8 @@ from cfdppy.exceptions import (
     InvalidDestinationId,
     InvalidPduDirection,
     InvalidPduForDestHandler,
+    InvalidSourceId,
+    InvalidTransactionSeqNum,
     NoRemoteEntityCfgFound,
     PduIgnoredForDest,
     PduIgnoredForDestReason,
@@ -422,6 +424,10 @@ class DestHandler:
         PduIgnoredForDest
             The PDU was ignored because it can not be handled for the current transmission mode or
             internal state.
+        InvalidSourceId
+            The PDU source entity ID is not the one of the active transaction.
+        InvalidTransactionSeqNum
+            The PDU transaction sequence number is not the one of the active transaction.
         """
         if packet is not None:
             self._check_inserted_packet(packet)
@@ -447,6 +453,16 @@ class DestHandler:
             raise NoRemoteEntityCfgFound(entity_id=packet.dest_entity_id)
         if get_packet_destination(packet) == PacketDestination.SOURCE_HANDLER:
             raise InvalidPduForDestHandler(packet)
+        if self.states.state == CfdpState.BUSY and self._params.transaction_id is not None:
+            # A PDU of another transaction must not be mixed into the active transaction.
+            if packet.source_entity_id.value != self._params.transaction_id.source_id.value:
+                raise InvalidSourceId(
+                    self._params.transaction_id.source_id, packet.source_entity_id
+                )
+            if packet.transaction_seq_num.value != self._params.transaction_id.seq_num.value:
+                raise InvalidTransactionSeqNum(
+                    self._params.transaction_id.seq_num, packet.transaction_seq_num
+                )
         if (self.states.state == CfdpState.IDLE) and (
             packet.pdu_type == PduType.FILE_DATA
             or packet.directive_type != DirectiveType.METADATA_PDU  # type: ignore
